@@ -298,7 +298,12 @@ class CallsMixin(ExecBase):
         if self.depth > 6:
             self.oos("inline depth", node)
         sub = st.fork()
-        sub.vars = dict(bound)
+        if ".<locals>." in fref.qual and self.depth == 0:
+            # a closure called from its defining scope reads the enclosing function's locals (late binding: their current values)
+            sub.vars = {k_: v_ for k_, v_ in st.vars.items() if not k_.startswith("__")}
+            sub.vars.update(bound)
+        else:
+            sub.vars = dict(bound)
         saved = (self.mod, self.cls, self.guards, self.loop_ordinal)
         g = self.guard_cond()
         self.mod, self.cls, self.guards = fref.mod, fref.cls, []
@@ -427,6 +432,48 @@ class CallsMixin(ExecBase):
             self.mod = saved
 
     # ------------------------------------------------------------------------------------------
+    def independence_obligation(self, ind, name, short, recv, args, kwargs, st, node):
+        """Frame condition as non-interference: nothing handed to this callee (receiver, arguments, keyword arguments) depends on the
+        declared source inputs.  For a value, the obligation is  v == v[src := src']  with src' fresh (valid exactly when v does not
+        vary with the source); an object is tracked by reference: one built by a constructor from a dependent argument is dependent."""
+        last = short.split(".")[-1]
+        tainted = self.__dict__.setdefault("tainted_refs", set())
+        srcs = []
+        for sname in ind["sources"]:
+            v = self.entry_pre.vars.get(sname) if getattr(self, "entry_pre", None) is not None else None
+            if isinstance(v, Val):
+                srcs.append((sname, v.e))
+            elif isinstance(v, Ref):
+                tainted.add(v.id if hasattr(v, "id") else id(v))
+        self.ind_sources = srcs
+        subst = [(e, z3.Const(f"{n}!other", e.sort())) for n, e in srcs]
+        parts, deps = [], []
+        items = [("receiver", recv)] + [(f"argument {i}", a[1] if isinstance(a, tuple) else a) for i, a in enumerate(args)] + [(f"keyword {k}", v) for k, v in kwargs.items()]
+        for what, v in items:
+            if v is None:
+                continue
+            if isinstance(v, Ref):
+                if (v.id if hasattr(v, "id") else id(v)) in tainted:
+                    deps.append(what)
+                    parts.append(z3.BoolVal(False))
+                else:
+                    c_ = st.cell(v)
+                    if getattr(c_, "val", None) is not None and isinstance(c_.val, Val):
+                        parts.append(c_.val.e == z3.substitute(c_.val.e, *subst))
+                continue
+            if isinstance(v, Val):
+                parts.append(v.e == z3.substitute(v.e, *subst))
+        dependent_syntactically = any(not z3.is_true(z3.simplify(p_)) for p_ in parts)
+        allowed = name in ind.get("allowed", ()) or short in ind.get("allowed", ()) or last in ind.get("allowed", ())
+        self.last_call_dependent = dependent_syntactically
+        if allowed or self.depth != 0:
+            return  # inside an inlined helper only the dependence of the result is tracked; the obligation is stated on the region's own calls
+        k_ = sum(1 for o in self.obligations if f"::indep:{short}#" in o.id)
+        g_ = self.guard_cond()
+        self.obligations.append(Obligation(f"{getattr(self, 'fn_site', self.fn_qual)}::indep:{short}#{k_}", "assert", list(st.pc) + ([g_] if g_ is not None else []),
+                                           z3.And(*parts) if parts else z3.BoolVal(True),
+                                           {"line": getattr(node, "lineno", 0), "clause": "independent_of_" + "_".join(ind["sources"]), "dependent": deps}))
+
     def opaque_call(self, name, args, kwargs, st, node, recv=None, result_cls=None):
         """Unknown callee: fresh result, may raise an exception of unknown class, assumed not to mutate
         its arguments or tracked state (assumption recorded; frame scan backs it for tracked fields)."""
@@ -456,6 +503,9 @@ class CallsMixin(ExecBase):
             g_ = self.guard_cond()
             self.obligations.append(Obligation(f"{getattr(self, 'fn_site', self.fn_qual)}::site:{short}#{k_}", "assert",
                                                list(st.pc) + ([g_] if g_ is not None else []), goal, {"line": getattr(node, "lineno", 0), "clause": cl.name}))
+        ind = self.opts.get("independent_of")
+        if ind is not None:
+            self.independence_obligation(ind, name, short, recv, args, kwargs, st, node)
         avals = []
         for a in args:
             if isinstance(a, tuple):
@@ -475,6 +525,10 @@ class CallsMixin(ExecBase):
         else:
             det_flag = None
             res = Val("any", fresh("ret_" + short.replace(".", "_"), Any))
+        if ind is not None and getattr(self, "last_call_dependent", False) and self.ind_sources:
+            # the result of a callee that was handed a source-dependent value is itself source-dependent (no laundering through opaque calls)
+            srcs_ = [e_ for _n, e_ in self.ind_sources]
+            res = Val("any", z3.Function("dep." + short, Any, *[e_.sort() for e_ in srcs_], Any)(res.e, *srcs_))
         self.assume(st, res.e != ABSENT)  # `absent` is the encoding of a missing dict entry, never a Python value
         if not is_nothrow:
             flag = det_flag if det_flag is not None else fresh("raises_" + short.replace(".", "_"), BoolS)
@@ -504,6 +558,8 @@ class CallsMixin(ExecBase):
             self.assumptions.add(f"assumed dependency contract on {name}: {dep.__doc__ or dep.__name__}")
         if result_cls is not None:
             r = st.new(Cell("obj", fields={}, cls=result_cls, lazy=True, path=f"new_{result_cls.name}!{len(st.log)}"))
+            if ind is not None and getattr(self, "last_call_dependent", False):
+                self.__dict__.setdefault("tainted_refs", set()).add(r.id if hasattr(r, "id") else id(r))
             return r
         return res
 
